@@ -448,6 +448,18 @@ class _FakePopen:
                 for spec in specs or ["."]:
                     names += sim.tracked_files(spec)
                 out = b"".join(n.encode("utf-8") + sep for n in sorted(set(names)))
+        elif sub == "rev-parse" and any(a in rest for a in ("--show-toplevel", "--show-prefix", "--show-cdup", "--is-inside-work-tree", "--git-dir")):
+            # where the enclosing work tree is: the tree itself (a clone), nowhere (an exported
+            # tarball), or a directory further up (the sources vendored into a bigger repository)
+            sim.probe("git_rev_parse_" + state)
+            if state == "norepo":
+                rc = 128
+            else:
+                top = sim.repo if state == "tracked" else os.path.dirname(os.path.dirname(sim.repo)) or "/"
+                prefix = os.path.relpath(sim.cwd, top)
+                prefix = "" if prefix == "." else prefix + "/"
+                answers = {"--show-toplevel": top, "--show-prefix": prefix, "--show-cdup": "".join("../" for _ in prefix.split("/") if _), "--is-inside-work-tree": "true", "--git-dir": os.path.join(top, ".git")}
+                out = "".join(answers[a] + "\n" for a in rest if a in answers).encode("utf-8")
         else:
             # any other git command: the real git, in the real repository (a deterministic
             # function of the tree); without a repository it fails like the real one
@@ -1256,6 +1268,8 @@ class Sim:
             "os_write": os.write,
             "which": shutil.which,
             "getpid": os.getpid,
+            "chdir": os.chdir,
+            "getcwd": os.getcwd,
             "readlink": os.readlink,
             "isatty": os.isatty,
             "fsync": os.fsync,
@@ -1399,6 +1413,16 @@ class Sim:
             shutil.which = sim_which
             os.getpid = lambda: 4242  # process identity is not something a result may depend on
             os.readlink = self.sim_readlink
+
+            def sim_chdir(path):
+                # the working directory is part of the simulated process: every seam resolves
+                # relative paths against it
+                new = os.path.normpath(os.path.join(sim.cwd, os.fspath(path)))
+                sim.log("chdir", to=sim.relproj(new) or "<outside the tree>")
+                saved["chdir"](path)
+                sim.cwd = new
+
+            os.chdir = sim_chdir
             os.isatty = lambda fd: (mode == "line") if fd == 1 else _TRUE["isatty"](fd)
             os.fsync = lambda fd: None if fd == 1 else _TRUE["fsync"](fd)
             sys.settrace(self.tracer)
@@ -1468,6 +1492,7 @@ class Sim:
             shutil.which = saved["which"]
             os.getpid = saved["getpid"]
             os.readlink = saved["readlink"]
+            os.chdir = saved["chdir"]
             os.isatty = saved["isatty"]
             os.fsync = saved["fsync"]
             _datetime_mod.date = saved["date"]
